@@ -22,6 +22,16 @@ package motion
 //@ pure func (fl *FrameLoop) slot(s int) int := s >= fl.base ? s - fl.base : s - fl.base + fl.size
 //@ pure func (fl *FrameLoop) hs() int := max(fl.mark, fl.n() - fl.size + 1)
 //@
+// Lock discipline (C16). The frame loop's thread is the only writer of the ring's
+// position; it writes it with fl.mu held, so a request thread that reads it with
+// fl.mu held sees a consistent value, and the frame-loop thread may read it
+// without the lock. size, frames and the processor's frameLoop pointer never
+// change after construction.
+//@ guarded FrameLoop.currentIndex by mu
+//@ immutable FrameLoop.size
+//@ immutable FrameLoop.frames
+//@ immutable MotionProcessor.frameLoop
+//@
 //@ pred (fl *FrameLoop) storage() :=
 //@      fl.size >= 1 && len(fl.frames) == fl.size && len(fl.orderedFrames) == fl.size
 //@   && arr(fl.frames) != arr(fl.orderedFrames) && arr(fl.frames) != 0 && arr(fl.orderedFrames) != 0
@@ -29,7 +39,7 @@ package motion
 //@   && (forall i int, j int :: 0 <= i && i < j && j < fl.size ==> fl.frames[i] != fl.frames[j])
 //@
 //@ pred (fl *FrameLoop) inv() :=
-//@      fl.storage()
+//@      fl.storage() && !fl.mu.held
 //@   && 0 <= fl.currentIndex && fl.currentIndex < fl.size
 //@   && (fl.base == 0 || fl.base >= fl.size) && (fl.base >= fl.size ==> fl.bufferFull)
 //@   && 0 <= fl.mark && fl.mark <= fl.n()
@@ -49,7 +59,7 @@ package motion
 //@   ensures fresh(arr(result.frames)) && fresh(arr(result.orderedFrames))
 
 //@ func (fl *FrameLoop) Reset
-//@   requires fl != nil && fl.storage()
+//@   requires fl != nil && fl.storage() && !fl.mu.held
 //@   modifies fl.currentIndex, fl.oldest, fl.bufferFull, fl.base, fl.mark
 //@   ghost_exit fl.base = 0; fl.mark = 0
 //@   ensures [C19,C09] fl.inv() && fl.n() == 0 && fl.mark == 0
@@ -71,16 +81,24 @@ package motion
 //@   requires fl != nil && fl.storage() && 0 <= fl.currentIndex && fl.currentIndex < fl.size
 //@   ensures [C19] result == fl.frames[fl.currentIndex] && result != nil
 
+// CopyRecent may run on a request thread. Its precondition is limited to what such a
+// thread may rely on: the immutable storage facts, and the position being in range -
+// which every writer re-establishes before it releases fl.mu (Move and Reset ensure
+// inv()). The position is read, and the slot copied, with fl.mu held; with at least two
+// slots the copied slot is not the one the frame loop is filling.
 //@ func (fl *FrameLoop) CopyRecent
+//@   thread any
 //@   allocates
-//@   requires fl != nil && fl.inv()
+//@   requires fl != nil && fl.storage() && !fl.mu.held && 0 <= fl.currentIndex && fl.currentIndex < fl.size
 //@   requires forall i int :: 0 <= i && i < fl.size ==> cptvframe.rowsOf(fl.frames[i])
-//@   ensures [C19] fresh(result) && cptvframe.rowsOf(result)
+//@   ensures [C19,C16] fresh(result) && cptvframe.rowsOf(result) && !fl.mu.held
 //@   call CreateCopy#1 assert previousIndex == (fl.currentIndex == 0 ? fl.size - 1 : fl.currentIndex - 1)
-//@   check [C19] result.copiedFrom == ref(fl.frames[previousIndex]) && len(result.Pix) == len(fl.frames[previousIndex].Pix) && result.Status == fl.frames[previousIndex].Status
-//@   check [C19] forall y int, x int :: 0 <= y && y < len(fl.frames[previousIndex].Pix) && 0 <= x && x < len(fl.frames[previousIndex].Pix[y]) ==> result.Pix[y][x] == fl.frames[previousIndex].Pix[y][x]
-//@   ensures [C19] fl.n() >= 1 ==> result.copiedFrom == ref(fl.frames[fl.slot(fl.n() - 1)])
-//@   ensures [C19] fl.n() >= 1 && fl.size >= 2 ==> fl.slot(fl.n() - 1) != fl.currentIndex
+//@   call CreateCopy#1 assert [C16] fl.mu.held && $0 == fl.frames[previousIndex]
+//@   call CreateCopy#1 assert [C16] fl.size >= 2 ==> previousIndex != fl.currentIndex
+//@   check [C19,C16] result.copiedFrom == ref(fl.frames[previousIndex]) && len(result.Pix) == len(fl.frames[previousIndex].Pix) && result.Status == fl.frames[previousIndex].Status
+//@   check [C19,C16] forall y int, x int :: 0 <= y && y < len(fl.frames[previousIndex].Pix) && 0 <= x && x < len(fl.frames[previousIndex].Pix[y]) ==> result.Pix[y][x] == fl.frames[previousIndex].Pix[y][x]
+//@   ensures [C19,C16] fl.inv() && fl.n() >= 1 ==> result.copiedFrom == ref(fl.frames[fl.slot(fl.n() - 1)])
+//@   ensures [C19,C16] fl.inv() && fl.n() >= 1 && fl.size >= 2 ==> fl.slot(fl.n() - 1) != fl.currentIndex
 
 //@ func (fl *FrameLoop) getFullHistory
 //@   requires fl != nil && fl.inv()
@@ -323,6 +341,7 @@ package motion
 //@   requires !isnil(recorder) && ref(recorder) != 0 && !isnil(snapshotRecorder) && ref(snapshotRecorder) != 0
 //@   requires ref(recorder) != ref(constantRecorder) && ref(recorder) != ref(snapshotRecorder) && (ref(constantRecorder) != 0 ==> ref(constantRecorder) != ref(snapshotRecorder))
 //@   requires !recorder.open && recorder.next == 0 && !snapshotRecorder.open && (ref(constantRecorder) != 0 ==> !constantRecorder.open)
+//@   call NewFrameLoop#1 assert [C16] $0 >= 2
 //@   ensures fresh(result) && result.PInv() && result.snapTidy() && !result.StartSnapshot
 //@   ensures [C03] result.minFrames == recorderConf.MinSecs*c.FPS() && result.maxFrames == recorderConf.MaxSecs*c.FPS()
 //@   ensures [C02] result.frameLoop.size == recorderConf.PreviewSecs*c.FPS() + motionConf.TriggerFrames && result.frameLoop.n() == 0
@@ -348,13 +367,16 @@ package motion
 //@   ensures [C12] mp.recorder.stops == old(mp.recorder.stops) + (old(mp.isRecording) ? 1 : 0) && mp.recorder.writes == old(mp.recorder.writes)
 //@   ensures [C20] ncalls("log.Printf") == 0 && ncalls("log.Print") == 0 && ncalls("log.Println") == 0
 
+// GetRecentFrame is the request path into the processor (snapshots over D-Bus).
 //@ func (mp *MotionProcessor) GetRecentFrame
+//@   thread any
 //@   allocates
-//@   requires mp != nil && mp.wired() && mp.frameLoop.inv()
+//@   requires mp != nil && mp.frameLoop != nil && heapobj(mp.frameLoop) && mp.frameLoop.storage() && !mp.frameLoop.mu.held
+//@   requires 0 <= mp.frameLoop.currentIndex && mp.frameLoop.currentIndex < mp.frameLoop.size
 //@   requires forall i int :: 0 <= i && i < mp.frameLoop.size ==> cptvframe.rowsOf(mp.frameLoop.frames[i])
-//@   modifies mp.log.previousTime, mp.log.previousEntry, mp.log.gLast, mp.log.gTime, mp.log.gPrinted, mp.log.gNow
-//@   ensures result0 == mp.CurrentFrame && fresh(result1)
-//@   ensures mp.log.inv()
+//@   ensures [C16] fresh(result1) && cptvframe.rowsOf(result1)
+//@   ensures [C16] ncalls("CopyRecent") == 1 && callarg("CopyRecent", 1, 0) == mp.frameLoop && result1 == callres("CopyRecent", 1)
+//@   ensures result0 == mp.CurrentFrame
 
 //@ func (mp *MotionProcessor) Process
 //@   requires mp != nil && mp.PInv() && mp.parseFrame != nil
